@@ -80,3 +80,23 @@ Fixpoint it_run (fuel n k : nat) (st : it_state) : list (option nat) * list (lis
            | (st', None) => ([it_hint n k st; it_hint n k st'], [])
            end
   end.
+
+(* the same state machine with the hint computed in binary arithmetic (used by the correspondence run for larger n;
+   SelProofs.it_runN_spec shows it is the image of it_run under N.of_nat) *)
+Fixpoint binom_loopN (n i : N) (steps : nat) (res : N) : N :=
+  match steps with O => res | S s => binom_loopN n (N.succ i) s (res * (n - i) / N.succ i)%N end.
+Definition binomN (n k : nat) : N := if n <? k then 0%N else binom_loopN (N.of_nat n) 0%N k 1%N.
+Definition it_hintN (n k : nat) (st : it_state) : option N :=
+  match st with
+  | Some idx => let r := fold_left N.add (map (fun p => binomN (snd p) (S (fst p))) (combine (seq 0 (length idx)) idx)) 0%N in
+                if (binomN n k <? r + 1)%N then None else Some (binomN n k - r - 1)%N
+  | None => Some (binomN n k)
+  end.
+Fixpoint it_runN (fuel n k : nat) (st : it_state) : list (option N) * list (list nat) :=
+  match fuel with
+  | O => ([it_hintN n k st], [])
+  | S f => match it_next n k st with
+           | (st', Some v) => let '(hs, vs) := it_runN f n k st' in (it_hintN n k st :: hs, v :: vs)
+           | (st', None) => ([it_hintN n k st; it_hintN n k st'], [])
+           end
+  end.
